@@ -23,7 +23,7 @@ def run(tier):
         rule='cases = terminal states of Gen_OpenDate (%s): (month, day) x layouts x reference days (the day before / itself / after in leap and non-leap years, '
              'year ends, leap-day neighbourhood) x time of day; seven weekday names x 14 consecutive reference days x time of day; oracle = bounded search on day '
              'ordinals in OpenDate.tla; exactly two values in the order past, future; verdict by TLC (Trace_DT)' % tier,
-        assumptions=d.ASSUME, exhaustive=True, post=_post, history_of=lambda case: case['text'])
+        assumptions=d.ASSUME, exhaustive=True, post=_post, history_of=lambda case: case['text'], history_reverse=True)
 
 
 def replay(path):
